@@ -141,12 +141,19 @@ def run(project, chk):
     for node in rets:
         o = org.of(node.id, node.ast.value)
         # the colour component of what is returned, as a set of alternatives
+        def flat(x):
+            if x[0] == "phi":
+                return [y for z in x[1] for y in flat(z)]
+            if x[0] == "ifexp":
+                return flat(x[2]) + flat(x[3])
+            return [x]
         colours = []
-        for a0 in (list(o[1]) if o[0] == "phi" else [o]):
+        for a0 in flat(o):
             if a0[0] == "tuple" and len(a0[1]) == 2:
-                colours += list(a0[1][0][1]) if a0[1][0][0] == "phi" else [a0[1][0]]
+                colours += flat(a0[1][0])
             else:
                 colours.append(("item", a0, 0))
+        colours = list(dict.fromkeys(colours))
         detail = oshow(o)[:200]
 
         def is_formatted(c):
